@@ -414,11 +414,15 @@ Proof.
     pose proof (marker_at body v rr) as M.
     assert (Hlen : S (length body) <= length (map fst (literal_runes body v rr))).
     { unfold literal_runes. rewrite map_length, !app_length. unfold ascii_runes. rewrite !map_length. cbn. lia. }
-    destruct (index_of_complete _ _ _ M Hlen) as (q & Eq & Hqle). rewrite Eq.
-    destruct (index_of (zs s_anchor) (map fst (literal_runes body v rr))) as [p|] eqn:Ep; [|reflexivity].
-    assert (G : (Nat.ltb 0 p && Nat.ltb p q)%bool = false).
-    { destruct (Nat.ltb_spec 0 p); [|reflexivity]. destruct (Nat.ltb_spec p q); [|reflexivity]. exfalso.
-      apply index_of_sound in Ep. rewrite (no_anchor_inside body v rr p Hb ltac:(lia)) in Ep. discriminate. }
+    assert (ET : exists T', map fst (literal_runes body v rr) = 34%Z :: T').
+    { eexists. unfold literal_runes. cbn [ascii_runes map app]. reflexivity. }
+    destruct ET as [T' ET]. pose proof (no_anchor_inside body v rr) as NA. rewrite ET in M, Hlen, NA |- *.
+    cbn [tl skipn length] in *.
+    destruct (index_of_complete _ _ _ M ltac:(lia)) as (q & Eq & Hqle). rewrite Eq.
+    destruct (index_of (zs s_anchor) T') as [p|] eqn:Ep; [|reflexivity].
+    assert (G : Nat.ltb p q = false).
+    { destruct (Nat.ltb_spec p q); [|reflexivity]. exfalso.
+      apply index_of_sound in Ep. specialize (NA (S p) Hb ltac:(lia)). cbn [skipn] in NA. rewrite NA in Ep. discriminate. }
     rewrite G. reflexivity.
   - cbn [step]. unfold lex_literal. rewrite Hrest. unfold literal_runes. cbn [ascii_runes map app].
     fold (ascii_runes body). rewrite lit_loop_body by assumption.
